@@ -355,15 +355,15 @@ CUD_END = '''proof {
             assert(vxh.only_node(h1, me));
             assert(forall|id: int| vxh.nodes.contains_key(id) <==> h1.nodes.contains_key(id));
             assert forall|id: int, i: int| vxh.nodes.contains_key(id) && 0 <= i < vxh.ris(id).len() implies (#[trigger] vxh.ris(id)[i]).wf() by {
-                if id == me { if i > 0 { assert(vxh.ris(me)[i] == h1.ris(me)[i - 1]); assert(h1.ris(me)[i - 1].wf()); } else { assert(vxh.ris(me)[0].wf()); } } else { assert(vxh.nodes[id] == h1.nodes[id]); assert(h1.nodes.contains_key(id)); assert(h1.ris(id)[i].wf()); }
+                if id == me { if i > 0 && vxh.ris(me).len() == h1.ris(me).len() + 1 { assert(vxh.ris(me)[i] == h1.ris(me)[i - 1]); assert(h1.ris(me)[i - 1].wf()); } else if i == 0 { assert(vxh.ris(me)[0].wf()); } } else { assert(vxh.nodes[id] == h1.nodes[id]); assert(h1.nodes.contains_key(id)); assert(h1.ris(id)[i].wf()); }
             }
-            assert forall|id: int| #[trigger] vxh.nodes.contains_key(id) implies vxh.ris(id).len() > 0 by { if id != me { assert(vxh.nodes[id] == h1.nodes[id]); assert(h1.nodes.contains_key(id)); } else { assert(vxh.ris(me).len() == 1 + h1.ris(me).len()); } }
+            assert forall|id: int| #[trigger] vxh.nodes.contains_key(id) implies vxh.ris(id).len() > 0 by { if id != me { assert(vxh.nodes[id] == h1.nodes[id]); assert(h1.nodes.contains_key(id)); } else { } }
             assert forall|id: int| #[trigger] vxh.nodes.contains_key(id) && vxh.nodes[id].parent is Some implies vxh.nodes.contains_key(vxh.nodes[id].parent->Some_0.nid()) && vxh.nodes[vxh.nodes[id].parent->Some_0.nid()].depth < vxh.nodes[id].depth by {
                 let p = vxh.nodes[id].parent->Some_0.nid(); assert(h1.nodes.contains_key(id)); assert(vxh.nodes[p].depth == h1.nodes[p].depth && vxh.nodes[id].depth == h1.nodes[id].depth);
             }
             assert forall|k: int| h0.nodes.contains_key(k) && k != me && h0.nodes[k].depth >= h0.nodes[me].depth implies #[trigger] vxh.nodes[k] == h0.nodes[k] by { assert(h1.nodes[k] == h0.nodes[k]); }
             assert forall|k: int| #[trigger] h0.nodes.contains_key(k) && h0.in_upper(k) implies vxh.nodes[k] == h0.nodes[k] by { assert(h1.nodes[k] == h0.nodes[k]); }
-            assert(vxh.ris(me).skip(1) =~= h0.ris(me));
+            if vxh.ris(me).len() == h1.ris(me).len() + 1 { assert(vxh.ris(me).skip(1) =~= h0.ris(me)); }
             assert(h1.up_frame(h0, pnode.nid()) || h1 == h0);
             assert(vxh.log == h0.log);
             assert forall|k: int| #[trigger] h0.nodes.contains_key(k) implies vxh.nodes.contains_key(k) && vxh.nodes[k].parent == h0.nodes[k].parent && vxh.nodes[k].depth == h0.nodes[k].depth by { assert(h1.nodes.contains_key(k)); }
@@ -465,11 +465,13 @@ def unit(root='/repo'):
                  ensures=COPY_ENS + [NODE_AFTER % 'copy_regfile_up'] + REC,
                  splices=[('let mut upper_handle = 0u64;', 'before', SNAP + ' let ghost content = (*lower_layer).s_content(lower_inode); proof { axiom_file_size(&*lower_layer, lower_inode); assert(lower_layer == first_ri(*old(vxh), *node).layer && lower_inode == first_ri(*old(vxh), *node).inode); }'),
                           ('loop {', 'replace', '''loop
-            invariant ''' + LOOPH + ''' file.data() == content.subrange(0, offset as int), file.pos() == file.data().len(), offset <= content.len(), content.len() <= 0x7fff_ffff_ffff_ffff, size == 4194304u32, content == (*lower_layer).s_content(lower_inode),
+            invariant ''' + LOOPH + ''' file.data() == content.subrange(0, offset as int), // [read_all] so far the temporary file holds the lower file's first `offset` bytes
+                file.pos() == file.data().len(), offset <= content.len(), content.len() <= 0x7fff_ffff_ffff_ffff, size == 4194304u32, content == (*lower_layer).s_content(lower_inode),
             ensures file.data() == content, // [read_all] the temporary file holds the whole lower file
         {'''),
                           ('while let Some(ref ri) = upper_real_inode {', 'replace', '''while let Some(ref ri) = upper_real_inode
-            invariant ''' + LOOPH + ''' file.data() == content, file.pos() == offset, offset <= content.len(), content.len() <= 0x7fff_ffff_ffff_ffff, size == 4194304u32,
+            invariant ''' + LOOPH + ''' file.data() == content, file.pos() == offset, // [all_bytes] the next write takes the bytes from `offset` on and puts them at `offset`
+                offset <= content.len(), content.len() <= 0x7fff_ffff_ffff_ffff, size == 4194304u32,
                 upper_real_inode is Some ==> upper_real_inode->Some_0.wf() && upper_real_inode->Some_0.in_upper_layer,
                 content == (*first_ri(*old(vxh), *node).layer).s_content(first_ri(*old(vxh), *node).inode), grant_up_write(*old(vxh), *node),
             ensures upper_real_inode is Some ==> offset == content.len(), // [all_bytes] the loop ends only when every byte of the lower file has been written at its own offset
